@@ -62,6 +62,17 @@ func atoi(s string) int { n, _ := strconv.Atoi(s); return n }
 type env struct {
 	base   time.Time
 	curLog func() *[]string
+	// cooperative scheduler only (nil otherwise):
+	// boundary ends the history operation the running thread is in with result `ret` and starts the next one (`nextOp`) at the
+	// thread's next scheduled step — for one real call that is two operations of the specification (BlockWise.Do = register … remove)
+	boundary func(ret, nextOp string)
+	// gate is a scheduling point inside code the harness supplies to the library (a client's AcquireMessage)
+	gate func()
+}
+
+// historyOp lets an object say under which name of the specification an operation appears in the history.
+type historyOp interface {
+	histOp(f []string) string
 }
 
 type object interface {
